@@ -1283,9 +1283,11 @@ func c11NamespaceRule(c *Ctx, fn *ssa.Function) {
 func c11r5(c *Ctx) {
 	p := c.P
 	seen := map[*ssa.Function]bool{}
-	for _, ws := range allWriterSites(p.productFuncs()) {
-		if ws.Verb == "Delete" && ws.Class != "typed" {
-			seen[ws.Call.Fn] = true
+	viaHelper := map[*ssa.Function][]DeleteCtx{}
+	for _, dc := range p.dynDeleteContexts() {
+		seen[dc.Fn] = true
+		if dc.Helper != nil {
+			viaHelper[dc.Fn] = append(viaHelper[dc.Fn], dc)
 		}
 	}
 	var fns []*ssa.Function
@@ -1309,6 +1311,10 @@ func c11r5(c *Ctx) {
 				a := callArgs(cc.Common)
 				sites = append(sites, site{"Get", cc.Instr, a[2], a[1]})
 			}
+		}
+		for _, dc := range viaHelper[fn] {
+			// the delete was extracted into a helper: its call site is the delete site
+			sites = append(sites, site{"Delete", dc.Site, dc.Obj, nil})
 		}
 		for _, s := range sites {
 			o := c.Ob(fn, "teardown-"+s.name, s.in, c.rule.Statement)
